@@ -29,6 +29,7 @@ var (
 	flagLen      = flag.Int("len", 0, "ops per history (0 = tier default)")
 	flagBatch    = flag.String("batch", "", "child: batch request file")
 	flagResult   = flag.String("result", "", "child: result file")
+	flagEnum     = flag.Int("enum", 0, "depth of the exhaustive small-scope enumeration (0 = tier default)")
 	flagTrace    = flag.Bool("trace", false, "child: print every op to stderr before applying it")
 )
 
@@ -396,6 +397,64 @@ func TestFamily(t *testing.T) {
 					count -= done
 				}
 			}(wk, first, count)
+		}
+		wg.Wait()
+	}
+	// exhaustive small-scope enumerations for the RPC properties (shallow in the quick tier)
+	rpcProp := *flagProperty == "C02" || *flagProperty == "C13" || *flagProperty == "C05" || *flagProperty == "C03"
+	if *flagReplay == "" && (*flagEnum > 0 || rpcProp) {
+		depth := *flagEnum
+		if depth == 0 {
+			depth = 2
+			if *flagTier == "thorough" {
+				depth = 4
+			}
+		}
+		var scs []Scenario
+		if *flagProperty != "C03" || *flagEnum > 0 {
+			scs = append(scs, enumScenarios(depth)...)
+		}
+		if *flagProperty == "C03" || *flagProperty == "C05" {
+			scs = append(scs, enumShared(depth+1)...)
+		}
+		sum.Notes = append(sum.Notes, fmt.Sprintf("exhaustive enumeration: %d histories (all follow-up sequences of length <= %d after one CALL over 13 events x2 callee feature sets; for C03/C05 all sequences of length <= %d over call/unregister/leave/re-register on a shared registration x3 policies)", len(scs), depth, depth+1))
+		workers := 12
+		per := (len(scs) + workers - 1) / workers
+		var mu sync.Mutex
+		var wg sync.WaitGroup
+		for wk := 0; wk < workers; wk++ {
+			lo, hi := wk*per, (wk+1)*per
+			if hi > len(scs) {
+				hi = len(scs)
+			}
+			if lo >= hi {
+				continue
+			}
+			wg.Add(1)
+			go func(wk int, part []Scenario) {
+				defer wg.Done()
+				for len(part) > 0 {
+					rs, cid, tail := runChild(*flagOut, fmt.Sprintf("enum%d", wk), batchReq{Property: *flagProperty, Seed: *flagSeed, Replay: part})
+					mu.Lock()
+					all = append(all, rs...)
+					mu.Unlock()
+					if cid < 0 {
+						break
+					}
+					// the child died on scenario cid: report it and continue after it
+					idx := 0
+					for i := range part {
+						if part[i].ID == cid {
+							idx = i
+						}
+					}
+					mu.Lock()
+					crashes = append(crashes, hcommon.Disagreement{Input: part[idx], Impl: tail, SpecViolation: true,
+						Detail: fmt.Sprintf("the implementation crashed or hung on enumerated history %d", cid)})
+					mu.Unlock()
+					part = part[idx+1:]
+				}
+			}(wk, scs[lo:hi])
 		}
 		wg.Wait()
 	}
